@@ -20,6 +20,7 @@ import (
 	"github.com/regclient/regclient"
 	"github.com/regclient/regclient/scheme"
 	"github.com/regclient/regclient/scheme/ocidir"
+	"github.com/regclient/regclient/types"
 	"github.com/regclient/regclient/types/descriptor"
 	"github.com/regclient/regclient/types/manifest"
 	"github.com/regclient/regclient/types/ref"
@@ -305,9 +306,18 @@ func (e *envA) doCopy(ctx context.Context, op Op) *evid.Violation {
 		srcTag = firstTagOf(g, op.Node)
 	}
 	var srcS string
-	if op.From == "layout" {
+	switch op.From {
+	case "layout":
 		srcS = "ocidir://" + e.srcDir
-	} else {
+	case "self":
+		// a copy inside the target layout (re-tag): by another tag of the layout, or by the node's digest
+		srcS = "ocidir://" + e.tgt
+		if op.SrcByTag {
+			srcTag = tagName((op.Tag + 5) % 4)
+		} else {
+			srcTag = ""
+		}
+	default:
 		srcS = srcHost + "/" + srcRepo
 	}
 	if srcTag != "" {
@@ -324,13 +334,12 @@ func (e *envA) doCopy(ctx context.Context, op Op) *evid.Violation {
 	var mu sync.Mutex
 	var viol *evid.Violation
 	k := 0
-	if op.CloseEvery > 0 && op.From == "reg" {
+	opts := copyOpts(op.Platforms, op.Referrers, op.DigestTags, op.Force, op.External, op.Child)
+	if op.CloseEvery > 0 {
 		closeRef := e.tgtRef(0, "")
-		e.m.Lock()
-		e.m.OnArrive = func(en *rm.Entry) {
-			if en.Host != srcHost {
-				return
-			}
+		// tick is called at instants at which this ImageCopy provably is in progress: from inside one of its own source
+		// requests and from inside its progress callback (both are invoked synchronously by goroutines ImageCopy waits for).
+		tick := func(what string) {
 			mu.Lock()
 			defer mu.Unlock()
 			k++
@@ -352,15 +361,27 @@ func (e *envA) doCopy(ctx context.Context, op Op) *evid.Violation {
 			}
 			sort.Strings(gone)
 			if len(gone) > 0 && e.gc {
-				viol = evid.V("close-during-copy-removed-files", "Close(target) called while ImageCopy of %s into the same layout was in progress (from inside its source request #%d %s %s) removed %d file(s) under blobs/: %v (Close returned %v)",
-					n.Digest, k, en.Method, en.Path, len(gone), head(gone, 4), cerr)
+				viol = evid.V("close-during-copy-removed-files", "Close(target) called while ImageCopy of %s into the same layout was in progress (instant #%d: %s) removed %d file(s) under blobs/: %v (Close returned %v)",
+					n.Digest, k, what, len(gone), head(gone, 4), cerr)
+			}
+		}
+		e.m.Lock()
+		e.m.OnArrive = func(en *rm.Entry) {
+			if en.Host == srcHost {
+				tick("inside its source request " + en.Method + " " + en.Path)
 			}
 		}
 		e.m.Unlock()
+		opts = append(opts, regclient.ImageWithCallback(func(kind types.CallbackKind, instance string, state types.CallbackState, cur, total int64) {
+			// "active" comes from a ticker goroutine that may outlive the copy by an instant; every other event is synchronous
+			if state != types.CallbackActive {
+				tick(fmt.Sprintf("inside its progress callback %s %q state %d", kind, instance, int(state)))
+			}
+		}))
 	}
 	bf, bi := listDigestFiles(e.tgt), e.readIndexBytes()
 	cctx, cancel := context.WithTimeout(ctx, 60*time.Second)
-	cerr := e.rc.ImageCopy(cctx, src, tgt, copyOpts(op.Platforms, op.Referrers, op.DigestTags, op.Force, op.External, op.Child)...)
+	cerr := e.rc.ImageCopy(cctx, src, tgt, opts...)
 	if cctx.Err() == context.DeadlineExceeded {
 		e.watchdog = true
 	}
@@ -442,6 +463,9 @@ func (e *envA) closeAndJudge(ctx context.Context, step string) *evid.Violation {
 	}
 	// (1) never removes reachable: every digest of R present and intact before is present and intact after
 	for _, d := range rb.sorted() {
+		if strings.HasPrefix(d, "sha512:") {
+			e.class("A:close-with-reachable-sha512-object")
+		}
 		k := digestKey(d)
 		h, ok := after.files[k]
 		if ok && h == before.files[k] {
@@ -646,7 +670,12 @@ func checkA(cs Case, ev *evid.Collector) *evid.Violation {
 		case "tagdel":
 			name := tagName(op.Tag)
 			if op.TagKind == 1 {
-				name = strings.Replace(n.Digest, ":", "-", 1)
+				// the tag regclient keeps the referrers of n under: <alg>-<first 64 hex digits>
+				alg, hx, _ := strings.Cut(n.Digest, ":")
+				if len(hx) > 64 {
+					hx = hx[:64]
+				}
+				name = alg + "-" + hx
 			}
 			r, err := ref.New("ocidir://" + e.tgt + ":" + name)
 			if err != nil {
